@@ -594,6 +594,30 @@ def _run_numeric(ctx, desc):
                             N, K, D, dict(desc, carrier="numeric"))
 
 
+def _run_large_kappa(ctx):
+    """The normalisation for node counts beyond the brute-force range: log kappa(d) against the closed form of its counting
+    definition, C(d,2) * C(N-2,d-2), computed with exact integers (the closed form itself is validated by enumeration for N <= 6)."""
+    import math
+    np, sp, sparse, Hypergraph, HyMMSBM, lin, to_coo = _imports()
+    fn = "HyMMSBM.log_kappa"
+    for N in (12, 24, 30, 40, 64):
+        inp = dict(N=N, K=1, part="kappa for large N")
+        try:
+            m = HyMMSBM(u=np.ones((N, 1)), w=np.ones((1, 1)), max_hye_size=N)
+            ds = np.arange(2, N + 1)
+            arr = np.asarray(m.log_kappa(ds), dtype=float)
+            scal = [float(m.log_kappa(int(d))) for d in (2, N // 2, N)]
+        except Exception as e:      # noqa: BLE001
+            ctx.check(False, fn, RAISES, dict(inp, error=_exc(e)), key=_raise_key(fn, e), replay=dict(part="K", N=N))
+            continue
+        exp = [math.log(math.comb(d, 2) * math.comb(N - 2, d - 2)) for d in range(2, N + 1)]
+        bad = [int(d) for d, a, b in zip(range(2, N + 1), arr, exp) if not (math.isfinite(a) and abs(a - b) <= 1e-9 * max(1.0, abs(b)))]
+        bad += [int(d) for d, a in zip((2, N // 2, N), scal) if not (math.isfinite(a) and abs(a - exp[d - 2]) <= 1e-9 * max(1.0, abs(exp[d - 2])))]
+        ctx.check(not bad, fn, "kappa equals its counting definition (pairs in a hyperedge x hyperedges containing a fixed pair)", inp,
+                  expected="log(C(d,2) C(N-2,d-2))", observed=dict(sizes_off=bad[:8]), replay=dict(part="K", N=N))
+        ctx.case(inp)
+
+
 # --------------------------------------------------------------------------------------------------------------
 # (B) fit
 # --------------------------------------------------------------------------------------------------------------
@@ -764,6 +788,19 @@ def _run_fit(ctx, cfg):
                   observed=[getattr(m.u, "shape", None), getattr(m.w, "shape", None)], replay=rp)
         if ok_shape:
             _param_clauses(ctx, np, m, i2, rp, ass)
+        if n == 1 and (u0 is not None or w0 is not None):
+            # fit() never changes a supplied parameter: also not when the same model object is fitted again
+            try:
+                m.fit(H, n_iter=1)
+                again = []
+                if u0 is not None and not (m.u is not None and np.array_equal(np.asarray(m.u), u0) and np.array_equal(uu, u0)):
+                    again.append("u")
+                if w0 is not None and not (m.w is not None and np.array_equal(np.asarray(m.w), w0) and np.array_equal(ww, w0)):
+                    again.append("w")
+                ctx.check(not again, fn, "parameters supplied at construction are unchanged by a second fit of the same object", i2,
+                          observed=again, replay=rp)
+            except Exception as e:      # noqa: BLE001
+                ctx.check(False, fn, RAISES, dict(inp, n_iter=n, second_fit=True, error=_exc(e)), key=_raise_key(fn, e), replay=rp)
         return m
 
     if mode != "u":
@@ -906,6 +943,7 @@ def _run(ctx):
     for desc in _numeric_plan(ctx.quick, ctx.seed):
         ctx.case(dict(part="N", **desc))
         _run_numeric(ctx, desc)
+    _run_large_kappa(ctx)
     t_n = ctx.elapsed()
     for cfg in _fit_plan(ctx.quick, ctx.seed):
         _run_fit(ctx, cfg)
@@ -935,6 +973,8 @@ def replay(data):
             elif part == "quantities":
                 carrier = data.pop("carrier", "numeric")
                 (_run_symbolic if carrier == "symbolic" else _run_numeric)(col, data)
+            elif part == "K":
+                _run_large_kappa(col)
             else:
                 return True, "nothing to replay"
     finally:
